@@ -216,19 +216,33 @@ func (m *multi) observe() MView {
 	return v
 }
 
+// dstString prints a destination: ids below bulkBase one by one ("!" = bytes differ), then the intact
+// bulk ids as ranges, then the damaged bulk ids one by one.
 func dstString(d map[int]bool) string {
 	ids := make([]int, 0, len(d))
 	for i := range d {
 		ids = append(ids, i)
 	}
 	sort.Ints(ids)
-	out := make([]string, len(ids))
-	for k, i := range ids {
-		out[k] = strconv.Itoa(i)
-		if !d[i] {
-			out[k] += "!"
+	var out []string
+	var good []int
+	var bad []string
+	for _, i := range ids {
+		switch {
+		case i < bulkBase && d[i]:
+			out = append(out, strconv.Itoa(i))
+		case i < bulkBase:
+			out = append(out, strconv.Itoa(i)+"!")
+		case d[i]:
+			good = append(good, i)
+		default:
+			bad = append(bad, strconv.Itoa(i)+"!")
 		}
 	}
+	if len(good) > 0 {
+		out = append(out, joinInts(good))
+	}
+	out = append(out, bad...)
 	return strings.Join(out, ",")
 }
 
